@@ -339,9 +339,11 @@ func (e *Env) index(x *EIndex) Val {
 			return termVal(Select(v.T, i), nil)
 		case v.Typ != nil:
 			if m, ok := v.Typ.Underlying().(*types.Map); ok {
-				_, valc := r.mapComps(m)
+				// Go semantics: the zero value when the map is nil or has no such key (as the code's own lookups)
+				hasc, valc := r.mapComps(m)
 				k := i
-				return termVal(Select(Select(r.heapGet(e.state(), valc), v.T), k), m.Elem())
+				has := And(Not(Eq(v.T, mkInt(0))), Select(Select(r.heapGet(e.state(), hasc), v.T), k))
+				return termVal(Ite(has, Select(Select(r.heapGet(e.state(), valc), v.T), k), zeroOf(m.Elem())), m.Elem())
 			}
 		}
 	}
